@@ -28,7 +28,10 @@ RULE = ("binary trees on 4..12 tips (thorough: up to 24), unrooted (root of degr
         "and equal the run writing to stdout; "
         "greedy cases (outside the literal quantifier, oracle only): the callback KEEPS proposals (the first / second of a "
         "branch, early, middle, late, two of them, every first one) applied and lets the enumeration continue; every proposal "
-        "is judged against the tree as it is when it is handed out (one split replaced, exact Undo, no error); "
+        "is judged against the tree as it is when it is handed out (one split replaced, exact Undo, no error); greedy-stop "
+        "cases: the callback answers false at proposal j (first/middle/last, first or second of a branch), having kept it, "
+        "not kept it, or kept an earlier one too: nothing may be handed out afterwards (calls = j+1) and the tree is the one "
+        "left by the kept moves or the original; "
         "multifurcating trees (outside the property: correspondence and the per-proposal clauses only, tag nonbinary); "
         "distinct = distinct case text")
 TRUSTED = ["tree built through NewNode/NewEdge + verif hooks (exact neighbour order); dump through Neigh()/Edges()/Left()/Right() "
@@ -209,7 +212,7 @@ def gen(rng, tier):
             ts = [rnd_tree(rng.randint(5, 12)) for _ in range(k)]
         out.append({"sx": sx({"par": [T(t) for t in ts]}), "meta": seq_meta(ts, "shared", goroutines=k)})
     # greedy sweep: some proposals are kept applied, the enumeration continues
-    ngreedy = {"quick": 42, "thorough": 700, "search": 90}[tier]
+    ngreedy = {"quick": 30, "thorough": 700, "search": 90}[tier]
     for i in range(ngreedy):
         t = rnd_tree(rng.randint(5, 12))
         n = nprops(t)
@@ -220,6 +223,12 @@ def gen(rng, tier):
         m = meta_of(t, "greedy")
         m["keep"] = ",".join(map(str, keep))[:40]
         out.append({"sx": sx({"tree": T(t), "keep": keep}), "meta": m})
+        # first-improvement style: the callback answers false at proposal j, having kept it or not
+        j = [0, 1, h, h + 1, n - 2, n - 1][i % 6]
+        for kp in ([j], [], [0, j] if j > 0 else [j]):
+            m2 = meta_of(t, "greedy-stop")
+            m2["keep"] = ",".join(map(str, kp)); m2["stop"] = j
+            out.append({"sx": sx({"tree": T(t), "keep": kp, "stop": j}), "meta": m2})
     # operations on the proposal objects (the applied flag), inside the callback and on kept objects
     OPS = ["AUAU", "AAU", "AUU", "UAU", "AUAAUU", "AAUAU", "UUAAUU", "AU"]
     K = 64
